@@ -175,6 +175,7 @@ def on_match(call):
 
 
 def install():
+    probe.enable_argflip({"HTM.match": lambda a, k: np.ndim(a[4] if len(a) > 4 else k.get("radius", 0)) == 0 and not k.get("file"), "Matcher.match": lambda a, k: np.ndim(a[2] if len(a) > 2 else k.get("radius", 0)) == 0 and not k.get("file")}, every=4)
     probe.enable_recall("C12.recall", every=5)
     probe.instrument("esutil.htm.htm:Matcher.__init__", [on_matcher_init])
     probe.instrument("esutil.htm.htm:Matcher.match", [on_match])
